@@ -36,7 +36,7 @@ const char * const engine_props[] = { "C10", "C11", "C20", NULL };
 enum {
 	N_READS, N_BYTES, N_SESSIONS, N_RESEEDS, N_MULTI, N_FAILCALLS, N_F_OPEN, N_F_READERR, N_F_EINTR, N_F_EOF, N_F_SHORT,
 	N_F_CLOSE, N_F_CLOSE_EINTR, N_F_ALLOC, N_RESEED_FAIL, N_INST_FAIL, N_RESEED_IN_MULTI, N_DH, N_DH_FAIL, N_DH_LEADZERO,
-	N_DH_EDGE, N_DH_CHOSEN_BLIND, N_OSSL_ALLOC, N_OSSL_FAIL, N_FREED_SCANNED, N_ENUM, N_SANITY, N_ZERO_LEN, N_DH_PRIV_ALIAS
+	N_DH_EDGE, N_DH_CHOSEN_BLIND, N_OSSL_ALLOC, N_OSSL_FAIL, N_FREED_SCANNED, N_ENUM, N_SANITY, N_ZERO_LEN, N_DH_PRIV_ALIAS, N_GIANT, N_RD_OK, N_RD_FAIL
 };
 const char * const engine_counters[] = {
 	"entropy_read_calls", "bytes_generated", "device_sessions", "probe_reseeds", "probe_multi_chunk_requests",
@@ -45,7 +45,7 @@ const char * const engine_counters[] = {
 	"probe_reseed_inside_multi_chunk_request", "dh_operations", "probe_dh_failed_cleanly", "probe_dh_result_leading_zero",
 	"probe_dh_edge_peer", "probe_dh_chosen_blinding", "openssl_allocations", "fault_openssl_alloc_failed",
 	"freed_blocks_scanned", "probe_dh_failure_points_enumerated", "sanitychecks", "probe_zero_length_request",
-	"probe_dh_private_value_inside_output_buffer", NULL
+	"probe_dh_private_value_inside_output_buffer", "probe_request_over_16MiB", "rdrand_draws", "fault_rdrand_no_data", NULL
 };
 
 /* ================= simulated entropy device ================= */
@@ -258,9 +258,73 @@ __wrap_crypto_entropy_read(uint8_t * buf, size_t len)
 	return (rc);
 }
 
+/* ================= RDRAND stand-in (build variant entropy_rdrand only) ================= */
+#ifdef SIM_RDRAND
+/*
+ * The RDRAND instruction and its CPUID bit are the stubs here: crypto_entropy.c (compiled with
+ * CPUSUPPORT_X86_RDRAND) calls these two functions exactly as it calls crypto_entropy_rdrand.c and
+ * cpusupport_x86_rdrand.c.  Output is a seeded stream; the plan says which calls report "no data".
+ */
+#define RDQ 64
+static struct { int ok; uint8_t b[32]; } rdq[RDQ];
+static int rdq_n, rdq_used, rd_calls, rd_present = 1;
+static const struct pline * rd_fail;
+
+#include "cpusupport.h"
+
+CPUSUPPORT_FEATURE_DECL(x86, rdrand)
+{
+
+	return (rd_present);
+}
+
+int
+generate_seed_rdrand(unsigned int * buf, size_t len)
+{
+	int i, fail = 0;
+	uint8_t * p = (uint8_t *)buf;
+
+	if (rd_fail != NULL)
+		for (i = 0; i < rd_fail->ntok; i++)
+			if (rd_fail->tok[i].n > 0 && rd_fail->tok[i].v[0] == (int64_t)rd_calls)
+				fail = 1;
+	rd_calls++;
+	if (len != 8)
+		sim_internal("generate_seed_rdrand called for an unexpected length");
+	if (rdq_n < RDQ) {
+		rdq[rdq_n].ok = !fail;
+		for (i = 0; i < 32; i++)
+			rdq[rdq_n].b[i] = devbyte(0x5eed0000ULL + (uint64_t)rd_calls * 64 + (uint64_t)i);
+		if (!fail)
+			memcpy(p, rdq[rdq_n].b, 32);
+		rdq_n++;
+	}
+	if (fail) {
+		R->cnt[N_RD_FAIL]++;
+		TR(0x0A, rd_calls - 1, 0, "RDRAND: no data (injected)");
+		return (-1);
+	}
+	R->cnt[N_RD_OK]++;
+	return (0);
+}
+#endif
+
 /* ================= lockstep reference model of the generator ================= */
 static struct drbg_ref M;
 static int first_sess;		/* index of the first session of the call being judged */
+
+/* In the RDRAND build each (re)seed is followed by one more state update with 32 bytes of RDRAND output, when there is any. */
+static void
+model_after_seed(void)
+{
+#ifdef SIM_RDRAND
+	if (!rd_present || rdq_used >= rdq_n)
+		return;
+	if (rdq[rdq_used].ok)
+		drbg_ref_extra(&M, rdq[rdq_used].b, 32);
+	rdq_used++;
+#endif
+}
 
 /*
  * Replay what the statement's policy implies for a request of len bytes,
@@ -286,6 +350,7 @@ model_read(uint8_t * out, size_t len, int af_in_call)
 		if (sess[idx].requested != 48 || sess[idx].delivered != 48)
 			sim_viol("C11.entropy-consumed", "instantiate-size", "instantiation consumed %zu bytes of OS entropy, the specification fixes 48", sess[idx].delivered);
 		drbg_ref_instantiate(&M, sess[idx].bytes, 48);
+		model_after_seed();
 		idx++;
 	}
 	while (pos < len) {
@@ -305,6 +370,7 @@ model_read(uint8_t * out, size_t len, int af_in_call)
 			if (sess[idx].requested != 32 || sess[idx].delivered != 32)
 				sim_viol("C11.entropy-consumed", "reseed-size", "a reseed consumed %zu bytes of OS entropy, the specification fixes 32", sess[idx].delivered);
 			drbg_ref_reseed(&M, sess[idx].bytes, 32);
+			model_after_seed();
 			idx++;
 			R->cnt[N_RESEEDS]++;
 			if (nchunks > 0)
@@ -835,14 +901,32 @@ do_dhenum(const struct pline * l)
 
 	make_value(priv, 32, 0, (uint64_t)l->a[0]);
 	make_value(peer, 256, 0, (uint64_t)l->a[1]);
-	if (dh_once(priv, peer, key, NULL, NULL, 0) != 0)
-		return;
-	n = ossl_n;
-	for (k = 0; k < n && k < 200; k++) {
-		ossl_fail_at = k;
-		(void)dh_once(priv, peer, key, NULL, NULL, 1);
-		ossl_fail_at = -1;
-		R->cnt[N_ENUM]++;
+	int which;
+
+	/*
+	 * Every libcrypto allocation of one computation fails once (shared key first, then public value).  A call
+	 * that reports success in spite of the failure must still deliver the exact value: the failure-free result
+	 * (itself checked against the big-integer oracle) is the reference.
+	 */
+	for (which = 0; which < 2; which++) {
+		const uint8_t * pe = which == 0 ? peer : NULL;
+		uint8_t key2[256];
+		int rc;
+
+		rc = dh_once(priv, pe, key, NULL, NULL, 0);
+		report_triple(pe ? "K" : "P", priv, pe ? pe : (const uint8_t *)"\x02", pe ? 256 : 1, key, rc);
+		if (rc != 0)
+			continue;
+		n = ossl_n;
+		for (k = 0; k < n && k < 200; k++) {
+			ossl_fail_at = k;
+			rc = dh_once(priv, pe, key2, NULL, NULL, 1);
+			ossl_fail_at = -1;
+			R->cnt[N_ENUM]++;
+			if (rc == 0 && memcmp(key2, key, 256) != 0)
+				sim_viol("C10.value", "after-failed-allocation", "libcrypto allocation %d of %d failed, the call still reported success, but the %s differs from the failure-free result",
+				    k, n, pe ? "shared key" : "public value");
+		}
 	}
 }
 
@@ -907,6 +991,15 @@ engine_gen(struct plan * P, uint64_t seed, struct prng * g)
 
 	(void)seed;
 	plan_add(P, "knob", "devseed", 1, (int64_t)prng_n(g, 1000000000));
+	/* (used by the RDRAND build only) is the instruction there, and which of its uses report "no data" */
+	plan_add(P, "knob", "rd_present", 1, (int64_t)!prng_chance(g, 10));
+	if (prng_chance(g, 35)) {
+		int q, nq = 1 + (int)prng_n(g, 3);
+
+		l = plan_add(P, "rdfail", "0", 0);
+		for (q = 0; q < nq; q++)
+			pline_tok(l, 1, (int64_t)prng_n(g, prng_chance(g, 60) ? 3 : 8));
+	}
 	if (c10 || c20) {
 		n = 1 + (int)prng_n(g, 2);
 		if (prng_chance(g, 50)) {
@@ -938,7 +1031,10 @@ engine_gen(struct plan * P, uint64_t seed, struct prng * g)
 		if (x < 55) {
 			int64_t len = prng_chance(g, 60) ? lens[prng_n(g, 16)] : (int64_t)prng_n(g, 3000);
 
-			l = plan_add(P, "step", "read", 1, len);
+			if (prng_n(g, 1000) < 1)
+				l = plan_add(P, "step", "read", 2, (int64_t)prng_n(g, 70000), (int64_t)1);	/* 16 MiB + a little */
+			else
+				l = plan_add(P, "step", "read", 1, len);
 			gen_devtape(g, l, 9, pf);
 		} else if (x < 85) {
 			/* long runs of small requests crossing reseed intervals */
@@ -962,6 +1058,10 @@ engine_run(const struct plan * P)
 
 	snprintf(R->crash_prop, sizeof(R->crash_prop), "%s", "");
 	devseed = (uint64_t)plan_knob(P, "devseed", 1);
+#ifdef SIM_RDRAND
+	rd_fail = plan_find(P, "rdfail", "0");
+	rd_present = (int)plan_knob(P, "rd_present", 1) != 0;
+#endif
 	for (i = 0; i < P->n; i++) {
 		const struct pline * l = &P->l[i];
 		int tpos = 0;
@@ -975,7 +1075,11 @@ engine_run(const struct plan * P)
 		if (!strcmp(l->name, "read")) {
 			size_t len = l->nargs > 0 && l->a[0] > 0 ? (size_t)l->a[0] : 0;
 
-			if (len > 400000)
+			if (l->nargs > 1 && l->a[1] == 1) {
+				/* more than 256 generate calls in one request (over 16 MiB) */
+				len = (size_t)65536 * 256 + 1 + len % 70000;
+				R->cnt[N_GIANT]++;
+			} else if (len > 400000)
 				len = 400000;
 			do_read(len, l, &tpos);
 		} else if (!strcmp(l->name, "burst")) {
